@@ -66,7 +66,14 @@ impl BootInformationHeader {
 
 impl Header for BootInformationHeader {
     fn payload_len(&self) -> usize {
-        self.total_size as usize - mem::size_of::<Self>()
+        // A reported total size smaller than the header itself is invalid. It
+        // must not underflow here; it is rejected when the structure is
+        // loaded, as `total_size()` reports the value as it is.
+        (self.total_size as usize).saturating_sub(mem::size_of::<Self>())
+    }
+
+    fn total_size(&self) -> usize {
+        self.total_size as usize
     }
 
     fn set_size(&mut self, total_size: usize) {
